@@ -196,8 +196,14 @@ Definition apply_op (o : opn) (args : list val) (ia : list (list nat)) : val :=
           end
       | _ => VErr EModel
       end
-  | OOnes, [] => match ia with [ns] => VT (ones_tt ns) | _ => VErr EModel end
-  | OZeros, [] => match ia with [ns] => VT (zeros_tt ns) | _ => VErr EModel end
+  | OOnes, [] => match ia with
+                 | [ns] => VT (ones_tt ns)
+                 | [ms; ns] => VM (map (fun mn => mk4 1 (fst mn) (snd mn) 1 (fun _ _ _ _ => rI)) (combine ms ns))     (* ones([(m1,n1),..]) *)
+                 | _ => VErr EModel end
+  | OZeros, [] => match ia with
+                  | [ns] => VT (zeros_tt ns)
+                  | [ms; ns] => VM (map (fun mn => mk4 1 (fst mn) (snd mn) 1 (fun _ _ _ _ => rO)) (combine ms ns))
+                  | _ => VErr EModel end
   | _, _ => VErr EModel
   end.
 
@@ -297,8 +303,8 @@ Definition dapply_op (o : opn) (args : list val) (ia : list (list nat)) : val :=
           end
       | _ => VErr EModel
       end
-  | OOnes, [] => match ia with [ns] => VD (dconst ns rI) | _ => VErr EModel end
-  | OZeros, [] => match ia with [ns] => VD (dconst ns rO) | _ => VErr EModel end
+  | OOnes, [] => match ia with [ns] => VD (dconst ns rI) | [ms; ns] => VD (dconst (ms ++ ns) rI) | _ => VErr EModel end
+  | OZeros, [] => match ia with [ns] => VD (dconst ns rO) | [ms; ns] => VD (dconst (ms ++ ns) rO) | _ => VErr EModel end
   | _, _ => VErr EModel
   end end.
 
